@@ -246,6 +246,15 @@ class C03(Check):
                         break
         # the dynamics object driven directly by the harness
         for d in (self._direct or []):
+            if d["kind"] == "layout":
+                lp, _lv = limits(d["span"], d["ref"])
+                upd("batch_layout_pos_ratio_to_limit", d["worst"] / lp if np.isfinite(d["worst"]) else 1e9, 1.0)
+                cnt["direct_batch_layouts"] = cnt.get("direct_batch_layouts", 0) + 1
+                if over(d["worst"], lp):
+                    viol.append({"clause": "batch-differs-from-single", "key": "memory-layout",
+                                 "detail": f"a batch of states handed over as a {d['layout']} (6, K) array and propagated over {d['span']}s differs from propagating its columns one at a time by {d['worst']:.3e} km"})
+                    break
+                continue
             k = max(base)
             if d["target"] not in base[k]:
                 continue
@@ -352,6 +361,25 @@ class C03(Check):
             if direct.get("one_call"):
                 dyn = pickle.loads(pickle.dumps(agent.dynamics))
                 results.append({"kind": "one-call", "target": t["id"], "state": np.asarray(dyn.propagate(0.0, T, x0.copy()), dtype=float).reshape(-1)[:6]})
+            if direct.get("one_call") and len(cfg["engines"][0]["targets"]) >= 1:
+                # several states at once, handed over in different memory layouts (row-major, column-major, a strided view): same states as one by one
+                others = [np.array(t2["state"]["position"] + t2["state"]["velocity"], dtype=float) for t2 in cfg["engines"][0]["targets"]]
+                cols = [x0] + [o for o in others if o is not x0][:2] + [x0 * (1 + 1e-6)]
+                rows = np.array(cols)                       # (K, 6), row-major
+                wide = np.zeros((6, 2 * len(cols)))
+                wide[:, ::2] = rows.T
+                layouts = {"row-major": np.ascontiguousarray(rows.T), "column-major": rows.T, "fortran": np.asfortranarray(rows.T), "strided": wide[:, ::2]}
+                span = float(min(T, max(step, 600.0)))
+                singles = [np.asarray(pickle.loads(pickle.dumps(agent.dynamics)).propagate(0.0, span, c.copy()), dtype=float).reshape(-1)[:6] for c in cols]
+                for lname, arr in layouts.items():
+                    dyn = pickle.loads(pickle.dumps(agent.dynamics))
+                    try:
+                        out = np.asarray(dyn.propagate(0.0, span, arr), dtype=float)
+                        worst = max(float(np.linalg.norm(out[:, j] - singles[j])) for j in range(len(cols))) if out.shape == (6, len(cols)) else float("inf")
+                    except Exception as exc:  # noqa: BLE001 - e.g. a scrambled state below the surface
+                        worst = float("inf")
+                        lname = f"{lname} ({type(exc).__name__})"
+                    results.append({"kind": "layout", "layout": lname, "target": t["id"], "worst": worst, "span": span, "ref": singles[0]})
             if isinstance(agent.dynamics, SpecialPerturbations):
                 sc = app.scenario_config
                 for off in direct.get("offsets", []):
